@@ -6,7 +6,12 @@ and independent property oracles on the implementation (own projections, own Bra
 networkx on the own projection, log diag expm(A) by scipy and by an own overflow-free scaling-and-squaring, the
 eigen-equation residuals at the bound the documented tolerance guarantees, relabelling).  Every centrality is also
 called on objects reached through histories: temporary items removed again, removal + re-insertion, the original of
-a copy mutated afterwards, the copy of an original mutated afterwards, the same object mutated between two calls."""
+a copy mutated afterwards, the copy of an original mutated afterwards, the same object mutated between two calls; and, in
+the session stream, on whatever object a user can come to hold: objects produced by other parts of the library (read_hif, save ->
+load in both formats, hmetis files, generators, filters, sub-hypergraphs, windows / snapshots of temporal hypergraphs, copies),
+objects carrying empty edges / metadata of any type / incidence metadata / weights, objects on which calls have raised - each
+judged against its OWN get_nodes() / get_edges(); the three readings line_graph takes of an object (get_edges, len(h),
+get_incident_edges) are sent to the model of Model/C20Reads.lean."""
 import contextlib
 import io
 import os
@@ -15,6 +20,7 @@ import itertools
 import math
 import random
 import signal
+import time
 from collections import deque
 from fractions import Fraction
 
@@ -25,7 +31,7 @@ if "numpy" not in sys.modules:
     for _v in ("OMP_NUM_THREADS", "OPENBLAS_NUM_THREADS", "MKL_NUM_THREADS"):
         os.environ.setdefault(_v, "2")
 
-RULE = ("four streams from one PRNG. (1) static: random Hypergraph, 3-8 labels from a sparse integer universe or a string "
+RULE = ("five streams from one PRNG. (1) static: random Hypergraph, 3-8 labels from a sparse integer universe or a string "
         "universe that contains 'E'/'N' labels ('ANNE', 'E1', 'N0', ...), hyperedges of size 1-4 with repeated overlaps, "
         "isolated nodes; s in {1,2,3}; s_betweenness/s_closeness/s_*_nodes, subhypergraph_centrality, an injective "
         "non-monotone relabelling. (2) temporal: the same universes, (time, hyperedge) records over 1-4 times; the four "
@@ -35,12 +41,30 @@ RULE = ("four streams from one PRNG. (1) static: random Hypergraph, 3-8 labels f
         "one-step runs from a dyadic start, a permutation of the labels. (4) dense: all / a random part of the hyperedges "
         "of 1-3 sizes on 6-14 nodes, or several large overlapping hyperedges (one fixed hyperedge of 760 members), with "
         "pendant hyperedges, isolated nodes and a second component: adjacency spectral radius from ~5 to ~7000; "
-        "subhypergraph_centrality only. In every stream 60-65 % of the objects are reached through a history (random "
+        "subhypergraph_centrality only. (5) sessions (1/6 of the cases): an object from a SOURCE - Hypergraph() / the constructor "
+        "(weights, node / edge metadata of any type), read_hif of a generated HIF document (edge records without incidences, "
+        "unrecorded nodes / edges, isolated node records, attributes, two names for one member set), random_hypergraph / "
+        "random_uniform_hypergraph / scale_free_hypergraph, a hmetis file, or a window of aggregate() / a snapshot of subhypergraph() of "
+        "a TemporalHypergraph built by its own session - followed by 2-9 steps: add_edge / add_edges / add_node(s) with no / mapping / "
+        "NON-mapping metadata (a tag string, '', numbers, lists, True), removals (also keep_edges), set_weight, set_*_metadata, "
+        "set_incidence_metadata, add_empty_edge, 1-3 calls the unchanged code refuses (19 classes: wrong weights, absent hyperedges / "
+        "nodes in single and batched removals, labels that do not sort or hash, short metadata / weight lists, a batch with a bad "
+        "hyperedge in the middle, item assignment on a tag, a sub-hypergraph of an absent node, ...; temporal: non-integer / negative "
+        "times, ...), derivations (copy, deepcopy, pickle, subhypergraph, subhypergraph_by_orders, subhypergraph_largest_component, "
+        "get_edges(subhypergraph=True), save -> load as json / hgx, filter_hypergraph, add_random_edge(s), random_shuffle, "
+        "configuration_model) and probes of 3-5 derivations of the final object. The object is asked after every call that raised, at "
+        "random places and at the end, derived-from objects once more at the end: ALL static centralities (and CEC / HEC when the "
+        "listing is a connected 3- or 4-uniform hypergraph on 0..N-1, the averaged ones for temporal objects) against the object's OWN "
+        "get_nodes() / get_edges(). In every other stream 60-65 % of the objects are reached through a history (random "
         "walk of add/remove operations, in-place mutation between two calls with and without a change of the node / "
         "hyperedge counts, copies). A case is distinct by its canonical input (construction mode and contents); "
         "non-trivial when the centralities it produced take >= 2 distinct values")
 ASSUMPTIONS = ["labels of one hypergraph are mutually comparable (all int or all str) and are mapped to their rank before they reach the model",
                "node labels are not tuples (a node never equals a hyperedge as a dict key)",
+               "sessions: nothing is assumed about the content of an object (no expected listing): a call that raises is an observation, "
+               "whatever it leaves behind is the hypergraph the user holds, and every centrality is judged against get_nodes() / get_edges() of "
+               "that object; objects listing a hyperedge without members (the generator never removes the only member of a hyperedge with keep_edges=True) "
+               "or labels that do not sort (only a changed implementation produces them) are skipped",
                "CEC/HEC: connected k-uniform hypergraphs with k in {3,4} on nodes 0..N-1 (as the routines demand)",
                "CEC/HEC eigen-equation: demanded at the bound that the documented defaults guarantee (CEC tol=1e-7, max_iter=1000; "
                "HEC tol=1e-6, max_iter=100) whenever the documented iteration, run by the harness from the recorded random start, "
@@ -979,6 +1003,10 @@ def compare_items(ctx, case, line, ans, impl, keyf, exact):
     m = parse_items(ans)
     if impl is None:
         return
+    if impl == "KeyError":
+        if m is not None:
+            ctx.disagree({**case, "line": line}, f"the implementation raised KeyError, the model answers {ans!r} to {line!r}")
+        return
     if m is None or "dup" in m:
         ctx.disagree({**case, "line": line}, f"model answers {ans!r} to {line!r}, implementation returned a dict")
         return
@@ -1097,8 +1125,9 @@ def check_static(ctx, drv, case):
     ctx.count("static_via_" + str(case.get("via") or "fresh"))
 
 
-def check_static_obj(ctx, drv, case, h, nodes, edges, rank, vals, s_order=(1, 2, 3)):
-    """all static centralities of ONE object whose listing is `nodes`, `edges`; returns what the implementation gave"""
+def check_static_obj(ctx, drv, case, h, nodes, edges, rank, vals, s_order=(1, 2, 3), parts=("edges", "nodes", "subhg"), light=False):
+    """all static centralities of ONE object whose listing is `nodes`, `edges`; returns what the implementation gave.
+    `parts`: which families are judged; `light`: the property oracles only (no stub runs, no model lines)"""
     import networkx as nx
     import numpy as np
     from hypergraphx.representations.projections import line_graph, bipartite_projection
@@ -1108,8 +1137,16 @@ def check_static_obj(ctx, drv, case, h, nodes, edges, rank, vals, s_order=(1, 2,
     checks = [lambda a: a == "ok" or f"load answered {a!r}"]
     impl = {}
 
+    # --- what line_graph READS of the object besides get_edges(): len(h) and get_incident_edges(node) per node (Model/C20Reads.lean)
+    reads = None
+    if not light and "edges" in parts:
+        rr = guard(lambda: (len(h), [[sorted(rank[x] for x in e) for e in h.get_incident_edges(x0)] for x0 in nodes]))
+        if rr[0] == "ok" and isinstance(rr[1][0], int) and all(len(e) for l in rr[1][1] for e in l):
+            reads = f"{rr[1][0]} " + hgxv.enc_listss(rr[1][1])
+            if rr[1][0] != len(edges):
+                ctx.count("reads_len_differs_from_listing")
     # --- projections (correspondence) and s-centralities of hyperedges
-    for s in s_order:
+    for s in (s_order if "edges" in parts else ()):
         adj = own_line(edges, s)
         g_own = nx_graph(adj)
         for name, fn, exact_fn, nxf, cname in (("s_betweenness", sc.s_betweenness, exact_betweenness, nx.betweenness_centrality, "btw"),
@@ -1124,7 +1161,19 @@ def check_static_obj(ctx, drv, case, h, nodes, edges, rank, vals, s_order=(1, 2,
             impl[(cname, s)] = d
             lines.append(f"se {cname} {s}")
             checks.append(("items", (cname, s), lambda k: ekey(rank, k), False))
+        if light:
+            continue
         lg = guard(line_graph, h, s=s)
+        if reads is not None:
+            # the loops of line_graph on the readings: the same graph, or the same KeyError
+            try:
+                want = "rej" if lg[0] != "ok" and lg[1].startswith("KeyError") else None if lg[0] != "ok" else \
+                    (hgxv.enc_list(sorted(lg[1][0].nodes)) + " " + hgxv.enc_lists(sorted(sorted(e) for e in lg[1][0].edges())))
+            except Exception:  # noqa: BLE001
+                want = None
+            if want is not None:
+                lines.append(f"rline {s} {reads}")
+                checks.append(("rline", want))
         if lg[0] == "ok":
             try:
                 g, tab = lg[1]
@@ -1138,16 +1187,22 @@ def check_static_obj(ctx, drv, case, h, nodes, edges, rank, vals, s_order=(1, 2,
                 ctx.disagree({**case, "s": s}, f"line_graph(h, s={s}) returned something that is not (graph, id table 0..m-1): {type(e).__name__}: {e}")
         with StubNx():
             for name, fn in (("s_betweenness", sc.s_betweenness), ("s_closeness", sc.s_closeness)):
+                # (never reached in light mode)
                 r = guard(fn, h, s)
                 impl[("stub" + name, s)] = r[1] if r[0] == "ok" and isinstance(r[1], dict) else None
                 lines.append(f"se stub {s}")
                 checks.append(("items", ("stub" + name, s), lambda k: ekey(rank, k), True))
+                if reads is not None and (impl[("stub" + name, s)] is not None or r[1].startswith("KeyError")):
+                    impl[("rstub" + name, s)] = impl[("stub" + name, s)] if r[0] == "ok" else "KeyError"
+                    lines.append(f"rse stub {s} {reads}")
+                    checks.append(("items", ("rstub" + name, s), lambda k: ekey(rank, k), True))
 
     # --- node versions on the bipartite projection
-    adj = own_bip(nodes, edges)
+    adj = own_bip(nodes, edges) if "nodes" in parts else {}
     g_own = nx_graph(adj)
-    for name, fn, exact_fn, nxf, cname in (("s_betweenness_nodes", sc.s_betweenness_nodes, exact_betweenness, nx.betweenness_centrality, "btw"),
-                                           ("s_closeness_nodes", sc.s_closeness_nodes, exact_closeness, nx.closeness_centrality, "clo")):
+    for name, fn, exact_fn, nxf, cname in ((("s_betweenness_nodes", sc.s_betweenness_nodes, exact_betweenness, nx.betweenness_centrality, "btw"),
+                                            ("s_closeness_nodes", sc.s_closeness_nodes, exact_closeness, nx.closeness_centrality, "clo"))
+                                           if "nodes" in parts else ()):
         ref = exact_fn(adj)
         refnx = nxf(g_own)
         d = check_dict(ctx, case, f"{name}(H)", guard(fn, h), nodes, {x: ref[("n", x)] for x in nodes},
@@ -1156,12 +1211,13 @@ def check_static_obj(ctx, drv, case, h, nodes, edges, rank, vals, s_order=(1, 2,
         lines.append(f"sn {cname}")
         checks.append(("items", (cname, "n"), lambda k: "n" + str(rank[k]), False))
     with StubNx():
-        for name, fn in (("s_betweenness_nodes", sc.s_betweenness_nodes), ("s_closeness_nodes", sc.s_closeness_nodes)):
+        for name, fn in ((("s_betweenness_nodes", sc.s_betweenness_nodes), ("s_closeness_nodes", sc.s_closeness_nodes))
+                         if "nodes" in parts and not light else ()):
             r = guard(fn, h)
             impl[("stub" + name, "n")] = r[1] if r[0] == "ok" and isinstance(r[1], dict) else None
             lines.append("sn stub")
             checks.append(("items", ("stub" + name, "n"), lambda k: "n" + str(rank[k]), True))
-    bp = guard(bipartite_projection, h)
+    bp = guard(bipartite_projection, h) if "nodes" in parts and not light else ("skip", None)
     if bp[0] == "ok":
         try:
             g, tab = bp[1]
@@ -1176,7 +1232,7 @@ def check_static_obj(ctx, drv, case, h, nodes, edges, rank, vals, s_order=(1, 2,
             ctx.disagree(case, f"bipartite_projection returned something that is not (graph, id table over the nodes / hyperedges): {type(e).__name__}: {e}")
 
     # --- sub-hypergraph centrality = log diag expm(A)
-    if edges:
+    if edges and "subhg" in parts:
         from scipy.linalg import expm
         srt = sorted(nodes)
         idx = {x: i for i, x in enumerate(srt)}
@@ -1192,7 +1248,8 @@ def check_static_obj(ctx, drv, case, h, nodes, edges, rank, vals, s_order=(1, 2,
             else:
                 vals.add(got_v.tolist())
                 impl["subhg"] = {x: got_v[idx[x]] for x in srt}
-    run_model(ctx, drv, case, lines, checks, impl)
+    if not light:
+        run_model(ctx, drv, case, lines, checks, impl)
     return impl
 
 
@@ -1216,6 +1273,10 @@ def run_model(ctx, drv, case, lines, checks, impl):
                 parts = a.split(" ")
                 if len(parts) == 2 and parts[0] != "-":
                     a = ";".join(sorted(parts[0].split(";"), key=lambda t: [int(z) for z in t.split(",")])) + " " + parts[1]
+            elif ck[0] == "rline":
+                parts = a.split(" ")
+                if len(parts) == 2 and parts[1] != "-":
+                    a = parts[0] + " " + ";".join(sorted(parts[1].split(";"), key=lambda t: [int(z) for z in t.split(",")]))
             if a != ck[1]:
                 ctx.disagree({**case, "line": ln}, f"model answers {a!r} to {ln!r}, implementation gives {ck[1]!r}")
 
@@ -1306,7 +1367,7 @@ def check_temporal_obj(ctx, drv, case, T, recs, rank, vals, s_order=(1, 2, 3)):
         try:
             d = sub[1]
             want = (hgxv.enc_list(list(d.keys())) + " " + hgxv.enc_lists([[rank[x] for x in hh.get_nodes()] for hh in d.values()]) + " "
-                    + "|".join(";".join(",".join(str(rank[x]) for x in e) for e in hh.get_edges()) for hh in d.values()))
+                    + ("|".join(";".join(",".join(str(rank[x]) for x in e) for e in hh.get_edges()) for hh in d.values()) or "-"))
             lines.append("snaps")
             checks.append(("plain", want))
         except Exception as e:  # noqa: BLE001
@@ -1811,6 +1872,938 @@ def ill_conditioned_witness(ctx):
 
 
 # ------------------------------------------------------------------------------------------
+# stream 5: sessions.  "For every hypergraph" = whatever object the user holds: objects produced by OTHER parts of the library
+# (read_hif documents incl. edge records without incidences, save -> load in both formats, generators, filters, sub-hypergraphs,
+# windows / snapshots of a temporal hypergraph, copies), objects that carry empty edges / incidence metadata / metadata of any
+# type / weights, and objects on which calls have RAISED (wrong weights, absent items, labels that do not sort, short metadata
+# lists, ...).  Nothing is assumed about what such an object contains: every centrality is judged against the object's OWN
+# get_nodes() / get_edges() - each listed hyperedge (node) exactly one value, the value of its vertex in the projection of
+# the listing.
+
+NON_MAPPING = ["contact", "", 7, 0, 2.5, ["a", "b"], [], True]
+MAPPINGS = [{}, {"k": "a"}, {"k": "b", "w": 3}, {"role": "x"}]
+SESSION_INT = list(range(0, 14))
+SESSION_STR = ["ANNE", "E1", "N0", "E", "N", "bob", "c", "d", "x1", "zed", "Ed", "al"]
+DERIVE = ("copy", "deepcopy", "pickle", "sub", "by_orders", "lcc", "edges_sub", "saveload", "filter", "add_random", "shuffle", "config")
+
+
+def _md(o, key="md"):
+    import copy
+    return copy.deepcopy(o[key])
+
+
+def step_static(h, st, tmp):
+    """one step of a session on the Hypergraph `h`; derive steps return the new object, all others None"""
+    import copy
+    import pickle
+    import random as pyrandom
+    k = st[0]
+    o = st[-1] if isinstance(st[-1], dict) else {}
+    if k == "add_edge":
+        kw = {}
+        if "w" in o:
+            kw["weight"] = o["w"]
+        if "md" in o:
+            kw["metadata"] = _md(o)
+        h.add_edge(tuple(st[1]), **kw)
+    elif k == "add_edges":
+        kw = {}
+        if "w" in o:
+            kw["weights"] = list(o["w"])
+        if "md" in o:
+            kw["metadata"] = _md(o)
+        h.add_edges([tuple(e) for e in st[1]], **kw)
+    elif k == "rm_edge":
+        h.remove_edge(tuple(st[1]))
+    elif k == "rm_edges":
+        h.remove_edges([tuple(e) for e in st[1]])
+    elif k == "add_node":
+        h.add_node(st[1], **({"metadata": _md(o)} if "md" in o else {}))
+    elif k == "add_nodes":
+        h.add_nodes(list(st[1]), **({"metadata": {a: copy.deepcopy(b) for a, b in o["md"]}} if "md" in o else {}))
+    elif k == "rm_node":
+        h.remove_node(st[1], keep_edges=bool(o.get("keep")))
+    elif k == "rm_nodes":
+        h.remove_nodes(list(st[1]), keep_edges=bool(o.get("keep")))
+    elif k == "set_weight":
+        h.set_weight(tuple(st[1]), o["w"])
+    elif k == "set_edge_md":
+        h.set_edge_metadata(tuple(st[1]), _md(o))
+    elif k == "set_attr_edge":
+        h.set_attr_to_edge_metadata(tuple(st[1]), o["field"], o["value"])
+    elif k == "set_node_md":
+        h.set_node_metadata(st[1], _md(o))
+    elif k == "set_inc_md":
+        h.set_incidence_metadata(tuple(st[1]), st[2], _md(o))
+    elif k == "add_empty":
+        h.add_empty_edge(st[1], _md(o))
+    elif k == "copy":
+        return h.copy()
+    elif k == "deepcopy":
+        return copy.deepcopy(h)
+    elif k == "pickle":
+        return pickle.loads(pickle.dumps(h))
+    elif k == "sub":
+        return h.subhypergraph(list(st[1]))
+    elif k == "by_orders":
+        return h.subhypergraph_by_orders(**{a: b for a, b in o.items()})
+    elif k == "lcc":
+        return h.subhypergraph_largest_component()
+    elif k == "edges_sub":
+        return h.get_edges(subhypergraph=True, **{a: b for a, b in o.items()})
+    elif k == "saveload":
+        from hypergraphx.readwrite.save import save_hypergraph
+        from hypergraphx.readwrite.load import load_hypergraph
+        path = os.path.join(tmp, "s." + o["fmt"])
+        if os.path.exists(path):
+            os.remove(path)
+        save_hypergraph(h, path, binary=o["fmt"] == "hgx")
+        return load_hypergraph(path)
+    elif k == "filter":
+        from hypergraphx.filters import filter_hypergraph
+        kw = {a: b for a, b in o.items()}
+        filter_hypergraph(h, **kw)
+    elif k == "add_random":
+        from hypergraphx.generation.random import add_random_edge, add_random_edges
+        kw = {a: b for a, b in o.items() if a != "num"}
+        return add_random_edges(h, o["num"], **kw) if "num" in o else add_random_edge(h, **kw)
+    elif k == "shuffle":
+        from hypergraphx.generation.random import random_shuffle
+        pyrandom.seed(o["seed"])
+        return random_shuffle(h, **{a: b for a, b in o.items()})
+    elif k == "config":
+        import numpy as np
+        from hypergraphx.generation.configuration_model import configuration_model
+        pyrandom.seed(o["seed"])
+        np.random.seed(o["seed"])
+        return configuration_model(h, **{a: b for a, b in o.items() if a != "seed"})
+    elif k == "ask":
+        pass
+    else:
+        raise ValueError(f"unknown step {st!r}")
+    return None
+
+
+def step_temporal(T, st, tmp):
+    import copy
+    import pickle
+    k = st[0]
+    o = st[-1] if isinstance(st[-1], dict) else {}
+    if k == "add":
+        kw = {}
+        if "w" in o:
+            kw["weight"] = o["w"]
+        if "md" in o:
+            kw["metadata"] = _md(o)
+        T.add_edge(tuple(st[1]), st[2], **kw)
+    elif k == "adds":
+        kw = {}
+        if "w" in o:
+            kw["weights"] = list(o["w"])
+        if "md" in o:
+            kw["metadata"] = _md(o)
+        T.add_edges([tuple(e) for e in st[1]], list(st[2]), **kw)
+    elif k == "rm":
+        T.remove_edge(tuple(st[1]), st[2])
+    elif k == "rm_rec":
+        T.remove_edge((st[2], tuple(st[1])))
+    elif k == "rms":
+        T.remove_edges([(t, tuple(e)) for e, t in st[1]])
+    elif k == "add_node":
+        T.add_node(st[1], **({"metadata": _md(o)} if "md" in o else {}))
+    elif k == "rm_node":
+        T.remove_node(st[1])
+    elif k == "set_md":
+        T.set_edge_metadata(tuple(st[1]), st[2], _md(o))
+    elif k == "set_weight":
+        T.set_weight(tuple(st[1]), st[2], o["w"])
+    elif k == "copy":
+        return T.copy()
+    elif k == "deepcopy":
+        return copy.deepcopy(T)
+    elif k == "pickle":
+        return pickle.loads(pickle.dumps(T))
+    elif k == "saveload":
+        from hypergraphx.readwrite.save import save_hypergraph
+        from hypergraphx.readwrite.load import load_hypergraph
+        path = os.path.join(tmp, "t." + o["fmt"])
+        if os.path.exists(path):
+            os.remove(path)
+        save_hypergraph(T, path, binary=o["fmt"] == "hgx")
+        return load_hypergraph(path)
+    elif k == "ask":
+        pass
+    else:
+        raise ValueError(f"unknown temporal step {st!r}")
+    return None
+
+
+def source_static(src, tmp):
+    """the object a session starts from (everything but the temporal sources)"""
+    import json
+    import random as pyrandom
+    import numpy as np
+    from hypergraphx import Hypergraph
+    t = src["t"]
+    if t == "new":
+        return Hypergraph(weighted=bool(src.get("weighted")))
+    if t == "ctor":
+        kw = {}
+        if src.get("weighted"):
+            kw["weighted"] = True
+        if src.get("weights") is not None:
+            kw["weights"] = list(src["weights"])
+        if src.get("node_md") is not None:
+            kw["node_metadata"] = {a: _md({"md": b}) for a, b in src["node_md"]}
+        if src.get("edge_md") is not None:
+            kw["edge_metadata"] = _md(src, "edge_md")
+        return Hypergraph([tuple(e) for e in src["edges"]], **kw)
+    if t == "hif":
+        from hypergraphx.readwrite.hif import read_hif
+        path = os.path.join(tmp, "doc.hif.json")
+        with open(path, "w") as f:
+            json.dump(src["doc"], f)
+        return read_hif(path)
+    if t == "gen":
+        a = src["args"]
+        if src["fn"] == "random_hypergraph":
+            from hypergraphx.generation.random import random_hypergraph
+            return random_hypergraph(a["n"], {int(k): v for k, v in a["by_size"]}, seed=a["seed"])
+        if src["fn"] == "random_uniform_hypergraph":
+            from hypergraphx.generation.random import random_uniform_hypergraph
+            return random_uniform_hypergraph(a["n"], a["size"], a["m"], seed=a["seed"])
+        if src["fn"] == "scale_free_hypergraph":
+            from hypergraphx.generation.scale_free import scale_free_hypergraph
+            np.random.seed(a["seed"])
+            return scale_free_hypergraph(a["n"], {int(k): v for k, v in a["by_size"]}, {int(k): v for k, v in a["scale"]},
+                                         correlated=a.get("correlated", True), num_shuffles=a.get("num_shuffles", 0))
+        if src["fn"] == "hgr":
+            from hypergraphx.readwrite.load import load_hypergraph
+            path = os.path.join(tmp, "g.hgr")
+            with open(path, "w") as f:
+                f.write(a["text"])
+            return load_hypergraph(path)
+    raise ValueError(f"unknown source {src!r}")
+
+
+def own_listing(h):
+    return list(h.get_nodes()), [tuple(sorted(e)) for e in h.get_edges()]
+
+
+def rank_of(universe):
+    """(rank of every label, labels mutually comparable)"""
+    try:
+        return {x: i for i, x in enumerate(sorted(universe))}, True
+    except TypeError:
+        return {x: i for i, x in enumerate(sorted(universe, key=lambda x: (type(x).__name__, repr(x))))}, False
+
+
+def plain(x):
+    """labels as plain Python values (generators hand out numpy integers)"""
+    try:
+        import numpy as np
+        if isinstance(x, np.generic):
+            return x.item()
+    except Exception:  # noqa: BLE001
+        pass
+    return x
+
+
+def ask_static(ctx, drv, case, tag, h, vals, s_order=(1, 2, 3), light=False):
+    """every static centrality of the object `h` against h's OWN listing. Returns a key of what was seen"""
+    from hypergraphx.measures import s_centralities as sc
+    icase = {**case, "instance": tag}
+    r = guard(own_listing, h)
+    if r[0] != "ok":
+        ctx.violation(icase, f"get_nodes() / get_edges() of the object ({tag}) raised {r[1]}")
+        return None
+    nodes, edges = r[1]
+    try:
+        nodes = [plain(x) for x in nodes]
+        edges = [tuple(plain(x) for x in e) for e in edges]
+        if len(set(nodes)) != len(nodes) or len(set(edges)) != len(edges):
+            ctx.violation(icase, f"the object ({tag}) lists a node or a hyperedge twice: {nodes!r} / {edges!r}")
+            return None
+    except TypeError:
+        ctx.count("session_unhashable_listing")
+        return None
+    members = {x for e in edges for x in e}
+    rank, comparable = rank_of(set(nodes) | members)
+    ctx.count("session_asks")
+    if not comparable:
+        # outside the quantifier (labels that do not sort); such an object only arises from a changed implementation
+        ctx.count("session_skipped_labels_not_comparable")
+        return ("mixed", len(nodes), len(edges))
+    if any(len(e) == 0 for e in edges):
+        ctx.count("session_skipped_hyperedge_without_members")
+        return ("()", len(nodes), len(edges))
+    if not members <= set(nodes):
+        # a hyperedge with a member that get_nodes() does not list: the hyperedge versions are still well defined
+        ctx.count("session_members_not_listed")
+        check_static_obj(ctx, drv, icase, h, nodes, edges, rank, vals, s_order, parts=("edges",))
+        for fn in (sc.s_betweenness_nodes, sc.s_closeness_nodes):
+            g = guard(fn, h)
+            if g[0] != "ok" or not isinstance(g[1], dict) or set(g[1]) != set(nodes) or len(g[1]) != len(nodes):
+                ctx.violation(icase, f"{fn.__name__}(H) on the object ({tag}) - nodes {nodes!r}, hyperedges {edges!r} - does not give exactly one "
+                                     f"value per node: {g[1]!r}")
+        return ("members", tuple(sorted(rank[x] for x in nodes)), tuple(sorted(tuple(sorted(rank[x] for x in e)) for e in edges)))
+    # the exact rational betweenness of the Lean model is slow on the bipartite projection of larger objects
+    light = light or len(nodes) + len(edges) > ctx.scale(11, 13)
+    check_static_obj(ctx, drv if not light else None, icase, h, nodes, edges, rank, vals, s_order, light=light)
+    n = len(nodes)
+    sizes = {len(e) for e in edges}
+    if len(sizes) == 1 and next(iter(sizes)) in (3, 4) and n > next(iter(sizes)) and n <= 40 \
+            and all(isinstance(x, int) and not isinstance(x, bool) for x in nodes) and sorted(nodes) == list(range(n)) and connected(n, edges):
+        k = next(iter(sizes))
+        g = guard(lambda: [tuple(plain(x) for x in e) for e in h.get_edges()])
+        if g[0] == "ok":
+            ctx.count("session_uniform_objects")
+            check_uniform_obj(ctx, drv if not light else None, {**icase, "seed": case.get("seed", 0), "n": n, "k": k}, h, g[1], n, k, vals, False)
+    return (tuple(rank[x] for x in nodes), tuple(tuple(sorted(rank[x] for x in e)) for e in edges))
+
+
+def ask_temporal(ctx, drv, case, tag, T, vals, s_order=(1, 2, 3), light=False):
+    icase = {**case, "instance": tag}
+    r = guard(lambda: [(t, tuple(sorted(e))) for t, e in T.get_edges()])
+    if r[0] != "ok":
+        ctx.violation(icase, f"get_edges() of the temporal hypergraph ({tag}) raised {r[1]}")
+        return None
+    recs = r[1]
+    if len(set(recs)) != len(recs):
+        ctx.violation(icase, f"the temporal hypergraph ({tag}) lists a record twice: {recs!r}")
+        return None
+    if any(len(e) == 0 for _, e in recs):
+        return None
+    rank, comparable = rank_of({x for _, e in recs for x in e})
+    if not comparable:
+        ctx.count("session_skipped_labels_not_comparable")
+        return None
+    ctx.count("session_temporal_asks")
+    check_temporal_obj(ctx, drv, icase, T, recs, rank, vals, s_order)
+    return tuple((t, tuple(sorted(rank[x] for x in e))) for t, e in recs)
+
+
+def run_steps(ctx, drv, case, obj, steps, stepper, asker, vals, tmp, what):
+    """runs `steps` on `obj`; a step that raises is an observation (the session goes on with the object as it is); the object
+    is asked after every step that raised, at every `ask` step and at the end; objects left behind by derive steps are asked
+    once more at the end (after their descendants were changed)"""
+    keys, held, asks = [], [], 0
+    order = [(1, 2, 3), (3, 2, 1)]
+    for i, st in enumerate(steps):
+        if st[0] == "probe":
+            # a derived object is built and asked; the session goes on with the object it had
+            r = guard(stepper, obj, st[1], tmp)
+            if r[0] == "ok" and hasattr(r[1], "get_edges") and hasattr(r[1], "get_nodes"):
+                ctx.count(f"session_probe_{st[1][0]}")
+                keys.append(asker(ctx, drv, {**case, "upto": i + 1}, f"{st[1][0]} of the object after step {i - 1}", r[1], vals, order[i % 2], light=True))
+            else:
+                ctx.count(f"session_probe_{st[1][0]}_raised")
+            continue
+        r = guard(stepper, obj, st, tmp)
+        if r[0] == "ok":
+            ctx.count(f"session_{what}_steps_ok")
+            if r[1] is not None:
+                if not (hasattr(r[1], "get_edges") and hasattr(r[1], "get_nodes")):
+                    ctx.count("session_derive_returned_no_hypergraph")
+                    continue
+                if len(held) < 2:
+                    held.append((f"object before step {i} {st[0]}", obj))
+                obj = r[1]
+                ctx.count(f"session_derive_{st[0]}")
+        else:
+            ctx.count(f"session_{what}_steps_raised")
+            ctx.count(f"session_raised_{st[0]}")
+        if (r[0] != "ok" or st[0] == "ask") and asks < 4:
+            asks += 1
+            keys.append(asker(ctx, drv, {**case, "upto": i + 1}, f"after step {i} {st[0]}" + (" which raised " + r[1].split(":")[0] if r[0] != "ok" else ""),
+                              obj, vals, order[asks % 2], light=True))
+    keys.append(asker(ctx, drv, case, "at the end of the session", obj, vals, order[(asks + 1) % 2]))
+    for tag, o in held:
+        keys.append(asker(ctx, drv, case, tag + ", asked at the end", o, vals, order[asks % 2]))
+    return obj, keys
+
+
+def check_session(ctx, drv, case):
+    import tempfile
+    import shutil
+    import warnings
+    vals = Values()
+    tmp = tempfile.mkdtemp(prefix="c20s")
+    try:
+        with warnings.catch_warnings():
+            warnings.simplefilter("ignore")
+            keys = check_session_(ctx, drv, case, vals, tmp)
+    finally:
+        shutil.rmtree(tmp, ignore_errors=True)
+    ctx.case(repr(("session", case["src"]["t"], keys)), vals.nontrivial(), sample=case)
+    ctx.count("session_src_" + case["src"]["t"] + ("_" + case["src"]["fn"] if "fn" in case["src"] else ""))
+
+
+def check_session_(ctx, drv, case, vals, tmp):
+    src = case["src"]
+    steps = case.get("steps", [])
+    if "upto" in case and case.get("phase") == "temporal":
+        # the replay of a question put while the temporal hypergraph was built
+        src = {**src, "tsteps": src["tsteps"][:case["upto"]], "pick": None}
+    elif "upto" in case:
+        steps = steps[:case["upto"]]
+    keys = []
+    if src["t"] == "temporal":
+        from hypergraphx import TemporalHypergraph
+        g = guard(lambda: TemporalHypergraph(weighted=bool(src.get("weighted"))))
+        if g[0] != "ok":
+            ctx.violation(case, f"TemporalHypergraph() raised {g[1]}")
+            return keys
+        T, k1 = run_steps(ctx, drv, {**case, "phase": "temporal"}, g[1], src["tsteps"], step_temporal, ask_temporal, vals, tmp, "temporal")
+        keys += k1
+        pick = src.get("pick")
+        if not pick:
+            return keys
+        if pick[0] == "aggregate":
+            d = guard(T.aggregate, pick[1])
+        else:
+            d = guard(T.subhypergraph, tuple(pick[1]) if pick[1] is not None else None, bool(pick[2]))
+        if d[0] != "ok" or not isinstance(d[1], dict):
+            # a time window the unchanged code refuses is not generated
+            ctx.violation(case, f"{pick[0]}({pick[1:]!r}) of the temporal hypergraph raised / returned {d[1]!r}")
+            return keys
+        objs = list(d[1].items())
+        ctx.count(f"session_temporal_{pick[0]}_objects", len(objs))
+        if not objs:
+            return keys
+        sel = objs[pick[-1] % len(objs)]
+        for kk, hh in objs[:4]:
+            if hh is not sel[1]:
+                keys.append(ask_static(ctx, drv, case, f"{pick[0]} {kk!r} of the temporal hypergraph", hh, vals, light=True))
+        h = sel[1]
+    else:
+        g = guard(source_static, src, tmp)
+        if g[0] != "ok":
+            ctx.violation(case, f"building the object of the session ({src['t']}) raised {g[1]}")
+            return keys
+        h = g[1]
+    _, k2 = run_steps(ctx, drv, case, h, steps, step_static, ask_static, vals, tmp, "static")
+    return keys + k2
+
+
+# --- generation of sessions (online: the generator performs the steps on a real object to know what is there)
+
+class Live:
+    """the object of a session while it is generated"""
+
+    def __init__(self, rng, obj, labels, stepper, tmp):
+        self.rng, self.obj, self.labels, self.stepper, self.tmp, self.steps = rng, obj, labels, stepper, tmp, []
+
+    def nodes(self):
+        r = guard(lambda: [plain(x) for x in self.obj.get_nodes()])
+        return r[1] if r[0] == "ok" else []
+
+    def edges(self):
+        r = guard(lambda: [tuple(plain(x) for x in e) for e in self.obj.get_edges()])
+        return r[1] if r[0] == "ok" else []
+
+    def do(self, st):
+        self.steps.append(st)
+        if st[0] == "probe":
+            return True
+        r = guard(self.stepper, self.obj, st, self.tmp)
+        if r[0] == "ok" and r[1] is not None and hasattr(r[1], "get_edges"):
+            self.obj = r[1]
+        return r[0] == "ok"
+
+
+def pick_md(rng, p_none=0.35, p_map=0.3):
+    """options of a call: no metadata / a mapping / a non-mapping object"""
+    r = rng.random()
+    if r < p_none:
+        return {}
+    if r < p_none + p_map:
+        return {"md": rng.choice(MAPPINGS)}
+    return {"md": rng.choice(NON_MAPPING)}
+
+
+def new_edge_over(rng, live, sizes=(2, 2, 3, 3, 4), uniform=None):
+    """a hyperedge that is not there, overlapping a present one where possible (so that it matters in the line graph)"""
+    nodes, edges = live.nodes(), live.edges()
+    pool = list(dict.fromkeys(list(nodes) + list(live.labels)))
+    for _ in range(30):
+        k = uniform or rng.choice(sizes)
+        if edges and rng.random() < 0.8:
+            base = list(rng.choice(edges))
+            keep = rng.sample(base, min(len(base), k - 1, rng.randint(1, 3)))
+        else:
+            keep = []
+        rest = [x for x in pool if x not in keep]
+        if len(rest) < k - len(keep):
+            continue
+        e = keep + rng.sample(rest, k - len(keep))
+        rng.shuffle(e)
+        if tuple(sorted(e)) not in edges:
+            return e
+    return None
+
+
+def other_kind(live):
+    return "zz" if live.labels and isinstance(live.labels[0], int) else 10 ** 6
+
+
+def bad_static(rng, live, weighted):
+    """a call that the unchanged code refuses (each class: wrong weights, absent items, labels that do not sort / hash,
+    short lists), built over present AND new items so that a half-performed call would show"""
+    nodes, edges = live.nodes(), live.edges()
+    e = new_edge_over(rng, live)
+    absent_e = new_edge_over(rng, live)
+    absent_n = next((x for x in live.labels if x not in nodes), other_kind(live))
+    c = rng.randrange(19)
+    if c == 0 and e and not weighted:
+        return ["add_edge", e, {"w": rng.choice([2, 0.5, 0, -1]), **pick_md(rng)}]
+    if c == 1 and e:
+        return ["add_edge", e[:-1] + [other_kind(live)], pick_md(rng)]
+    if c == 2 and e:
+        return ["add_edge", e[:-1] + [[e[-1]]], pick_md(rng)]
+    if c == 3 and e:
+        good = [e]
+        f = new_edge_over(rng, live)
+        tail = [f] if f and sorted(f) != sorted(e) else []
+        return ["add_edges", good + [[nodes[0] if nodes else live.labels[0], other_kind(live)]] + tail, {}]
+    if c == 4 and e:
+        f = new_edge_over(rng, live)
+        if f and sorted(f) != sorted(e):
+            return ["add_edges", [e, f], {"md": [rng.choice(MAPPINGS + NON_MAPPING)]}]
+    if c == 5 and e:
+        f = new_edge_over(rng, live)
+        if f and sorted(f) != sorted(e):
+            return ["add_edges", [e, f], {"w": [1]}]
+    if c == 6 and absent_e:
+        return ["rm_edge", absent_e]
+    if c == 7 and absent_e and edges:
+        return ["rm_edges", [list(rng.choice(edges)), absent_e]]
+    if c == 8:
+        return ["rm_node", absent_n, {"keep": rng.random() < 0.5}]
+    if c == 9 and nodes:
+        return ["rm_nodes", [rng.choice(nodes), absent_n], {"keep": rng.random() < 0.5}]
+    if c == 10 and edges and not weighted:
+        return ["set_weight", list(rng.choice(edges)), {"w": rng.choice([2, 0.5, 3.5])}]
+    if c == 11 and absent_e:
+        return ["set_weight", absent_e, {"w": 1}]
+    if c == 12 and absent_e:
+        return ["set_edge_md", absent_e, {"md": rng.choice(MAPPINGS + NON_MAPPING)}]
+    if c == 13 and absent_e:
+        return ["set_inc_md", absent_e, absent_e[0], {"md": {"role": "x"}}]
+    if c == 14:
+        new = [x for x in live.labels if x not in nodes][:2]
+        if len(new) < 2:
+            new = new + [other_kind(live)] + ([nodes[0]] if nodes and not new else [])
+        return ["add_nodes", new, {"md": [[new[0], {"k": "a"}]]}]
+    if c == 15 and edges:
+        return ["set_attr_edge", list(rng.choice(edges)), {"field": "k", "value": 1, "_needs": "non-mapping"}]
+    if c == 16 and nodes:
+        return ["sub", [rng.choice(nodes), absent_n]]
+    if c == 17:
+        return ["by_orders", {}]
+    if c == 18 and edges:
+        return ["edges_sub", {"size": len(rng.choice(edges)), "order": 1}]
+    return ["rm_edge", absent_e or [other_kind(live)]]
+
+
+def good_static(rng, live, weighted, uniform=None):
+    nodes, edges = live.nodes(), live.edges()
+    r = rng.random()
+    if r < 0.42 or not edges:
+        e = new_edge_over(rng, live, uniform=uniform)
+        if e:
+            o = pick_md(rng)
+            if weighted:
+                o["w"] = rng.choice([1, 2, 0.5, 3.25])
+            elif rng.random() < 0.2:
+                o["w"] = rng.choice([1, 1.0])
+            return ["add_edge", e, o]
+    if r < 0.52:
+        es = [e for e in (new_edge_over(rng, live, uniform=uniform) for _ in range(rng.randint(1, 3))) if e]
+        es = [list(t) for t in dict.fromkeys(tuple(sorted(e)) for e in es)]
+        if es:
+            o = {}
+            if rng.random() < 0.6:
+                o["md"] = [rng.choice(MAPPINGS + NON_MAPPING) for _ in es] + ([{}] if rng.random() < 0.3 else [])
+            if weighted or rng.random() < 0.15:
+                o["w"] = [rng.choice([1, 2, 0.5]) for _ in es]
+            return ["add_edges", es, o]
+    if r < 0.60 and edges and uniform is None:
+        return ["rm_edge", list(rng.choice(edges))]
+    if r < 0.66 and nodes and uniform is None:
+        x = rng.choice(nodes)
+        keep = rng.random() < 0.4 and all(len(e) >= 2 for e in edges if x in e)
+        return ["rm_node", x, {"keep": keep}]
+    if r < 0.72 and uniform is None:
+        return ["add_node", rng.choice(live.labels), pick_md(rng, 0.3, 0.3)]
+    if r < 0.80 and edges:
+        return ["set_edge_md", list(rng.choice(edges)), {"md": rng.choice(MAPPINGS + NON_MAPPING)}]
+    if r < 0.84 and nodes:
+        return ["set_node_md", rng.choice(nodes), {"md": rng.choice(MAPPINGS + NON_MAPPING)}]
+    if r < 0.90 and edges:
+        e = list(rng.choice(edges))
+        return ["set_inc_md", e, rng.choice(e), {"md": rng.choice(MAPPINGS + NON_MAPPING)}]
+    if r < 0.97:
+        return ["add_empty", rng.choice(["ph", "e9", 0, 41, "placeholder"]), {"md": rng.choice(MAPPINGS + NON_MAPPING)}]
+    if edges and weighted:
+        return ["set_weight", list(rng.choice(edges)), {"w": rng.choice([1, 2.5, 4])}]
+    return ["add_node", rng.choice(live.labels), {}]
+
+
+def derive_static(rng, live, uniform=None, kind=None):
+    nodes, edges = live.nodes(), live.edges()
+    sizes = sorted({len(e) for e in edges})
+    pool = ["copy", "deepcopy", "pickle", "saveload", "saveload"]
+    if uniform is None:
+        pool += ["sub", "sub", "by_orders", "by_orders", "lcc", "edges_sub", "edges_sub", "filter", "add_random", "shuffle", "config"]
+    k = kind or rng.choice(pool)
+    if k in ("copy", "deepcopy", "pickle", "lcc"):
+        return [k]
+    if k == "saveload":
+        return ["saveload", {"fmt": rng.choice(["json", "hgx"])}]
+    if k == "sub" and nodes:
+        keep = [x for x in nodes if rng.random() < 0.75] or nodes[:1]
+        rng.shuffle(keep)
+        return ["sub", keep]
+    if k == "by_orders" and sizes:
+        sel = rng.sample(sizes, rng.randint(1, len(sizes)))
+        if rng.random() < 0.5:
+            return ["by_orders", {"sizes": sel + ([sel[0]] if rng.random() < 0.2 else []), "keep_nodes": rng.random() < 0.5}]
+        return ["by_orders", {"orders": [s - 1 for s in sel], "keep_nodes": rng.random() < 0.5}]
+    if k == "edges_sub" and sizes:
+        o = {"keep_isolated_nodes": rng.random() < 0.5}
+        if rng.random() < 0.8:
+            s = rng.choice(sizes)
+            o.update({"size": s} if rng.random() < 0.5 else {"order": s - 1})
+            if rng.random() < 0.4:
+                o["up_to"] = True
+        return ["edges_sub", o]
+    if k == "filter":
+        o = {"mode": rng.choice(["keep", "remove"])}
+        if rng.random() < 0.6:
+            o["edge_criteria"] = {"k": rng.choice([["a"], ["a", "b"], [None]])}
+        if rng.random() < 0.5 or "edge_criteria" not in o:
+            o["node_criteria"] = {"k": rng.choice([["a"], [None], ["a", None]])}
+            o["keep_edges"] = False
+        return ["filter", o]
+    if k == "add_random" and len(nodes) >= 4:
+        # (size < number of nodes: add_random_edges of the unchanged code loops until it has `num` DIFFERENT hyperedges)
+        o = {"size": rng.randint(2, min(4, len(nodes) - 1))} if rng.random() < 0.5 else {"order": rng.randint(1, min(3, len(nodes) - 2))}
+        o.update({"inplace": rng.random() < 0.5, "seed": rng.randint(0, 999)})
+        if rng.random() < 0.5:
+            o["num"] = rng.randint(1, 2)
+        return ["add_random", o]
+    if k == "shuffle" and sizes and max(sizes) >= 2 and len(nodes) >= max(sizes):
+        s = rng.choice([z for z in sizes if z >= 2])
+        return ["shuffle", {"size": s, "inplace": False, "p": rng.choice([1.0, 0.5]), "seed": rng.randint(0, 999)}]
+    if k == "config" and edges and all(len(e) >= 2 for e in edges) and all(isinstance(x, int) for x in nodes):
+        return ["config", {"n_steps": rng.randint(5, 30), "seed": rng.randint(0, 999)}]
+    return ["copy"]
+
+
+def grow_static(rng, live, n_steps, weighted, uniform=None, p_derive=0.18):
+    # 1-3 calls that raise per session, at random places
+    bad_at = set(rng.sample(range(n_steps), min(n_steps, rng.randint(1, 3))))
+    for i in range(n_steps):
+        r = rng.random()
+        if i in bad_at:
+            st = bad_static(rng, live, weighted)
+            if isinstance(st[-1], dict) and st[-1].pop("_needs", None):
+                # item assignment on a stored non-mapping metadata object
+                live.do(["set_edge_md", st[1], {"md": rng.choice(["contact", 7, ["a"]])}])
+            if uniform is not None and st[0] in ("sub", "by_orders", "edges_sub"):
+                continue
+        elif r < p_derive:
+            st = derive_static(rng, live, uniform)
+        else:
+            st = good_static(rng, live, weighted, uniform)
+        live.do(st)
+        if st[0] in DERIVE and rng.random() < 0.5:
+            live.do(["ask"])
+        elif rng.random() < 0.08:
+            live.do(["ask"])
+
+
+def gen_hif_doc(rng, uniform=None):
+    """a HIF document: node / edge records with and without incidences, incidences of unrecorded nodes / edges, two edge names with the
+    same members, attributes on every kind of record, records in any order; node ids become 0..n-1 in order of first appearance"""
+    str_names = rng.random() < 0.5
+    n = rng.randint(4, 9)
+    nn = [("v%d" % i if str_names else 100 + 7 * i) for i in range(n)]
+    m = rng.randint(2, 7)
+    mem = {}
+    for j in range(m):
+        k = uniform or rng.choice([1, 2, 2, 3, 3, 4])
+        if mem and rng.random() < 0.7:
+            base = list(rng.choice(list(mem.values())))
+            keep = rng.sample(base, min(len(base), k - 1, rng.randint(1, 3))) if k > 1 else []
+        else:
+            keep = []
+        rest = [x for x in nn if x not in keep]
+        e = keep + rng.sample(rest, min(len(rest), k - len(keep)))
+        mem["e%d" % j if rng.random() < 0.7 else 500 + j] = e
+    if uniform is None and rng.random() < 0.25 and mem:
+        a = rng.choice(list(mem))
+        mem["dup"] = list(mem[a])
+    names = list(mem)
+    inc = [{"edge": a, "node": x, **({"weight": rng.choice([1, 2.5])} if rng.random() < 0.3 else {}),
+            **({"attrs": {"role": rng.choice(["in", "out"])}} if rng.random() < 0.3 else {})} for a in names for x in mem[a]]
+    if rng.random() < 0.7:
+        rng.shuffle(inc)
+    empties = [rng.choice(["lonely", "e99", 77, "E0", "placeholder"]) for _ in range(rng.choice([0, 0, 1, 1, 2]))]
+    empties = [a for a in dict.fromkeys(empties) if a not in mem]
+    erecs = [{"edge": a, **({"weight": 2} if rng.random() < 0.3 else {}), **({"attrs": {"k": rng.choice(["a", "b"])}} if rng.random() < 0.4 else {})}
+             for a in names if rng.random() < 0.8] + [{"edge": a, "attrs": {"note": "no members"}} for a in empties]
+    rng.shuffle(erecs)
+    used = {x for e in mem.values() for x in e}
+    nrecs = [{"node": x, **({"attrs": {"k": rng.choice(["a", "b"])}} if rng.random() < 0.4 else {})} for x in nn
+             if (x in used and rng.random() < 0.8) or (x not in used and uniform is None and rng.random() < 0.5)]
+    rng.shuffle(nrecs)
+    doc = {"nodes": nrecs, "edges": erecs, "incidences": inc}
+    r = rng.random()
+    if r < 0.6:
+        doc["type"] = "undirected"
+    elif r < 0.8:
+        doc["type"] = "asc"
+    if rng.random() < 0.4:
+        doc["metadata"] = {"name": "doc", "k": 1}
+    return doc
+
+
+def gen_uniform_edges(rng, n, k):
+    order = list(range(n))
+    rng.shuffle(order)
+    edges, seen = [tuple(order[:k])], set(order[:k])
+    for x in order[k:]:
+        edges.append(tuple(rng.sample(sorted(seen), k - 1) + [x]))
+        seen.add(x)
+    for _ in range(rng.randint(0, 3)):
+        edges.append(tuple(rng.sample(range(n), k)))
+    return [list(e) for e in dict.fromkeys(tuple(sorted(e)) for e in edges)]
+
+
+def gen_temporal_source(rng, tmp):
+    from hypergraphx import TemporalHypergraph
+    ints = rng.random() < 0.55
+    labels = rng.sample(SESSION_INT if ints else SESSION_STR, rng.randint(4, 7))
+    weighted = rng.random() < 0.2
+    g = guard(lambda: TemporalHypergraph(weighted=weighted))
+    if g[0] != "ok":
+        return {"t": "temporal", "weighted": weighted, "tsteps": [], "pick": None}, None, labels, weighted
+    live = Live(rng, g[1], labels, step_temporal, tmp)
+    tmax = rng.randint(1, 5)
+
+    def recs():
+        r = guard(lambda: [(t, tuple(e)) for t, e in live.obj.get_edges()])
+        return r[1] if r[0] == "ok" else []
+
+    def new_rec():
+        rs = recs()
+        for _ in range(20):
+            k = rng.choice([2, 2, 3, 3, 4])
+            if rs and rng.random() < 0.7:
+                base = list(rng.choice(rs)[1])
+                keep = rng.sample(base, min(len(base), k - 1, rng.randint(1, 3)))
+            else:
+                keep = []
+            rest = [x for x in labels if x not in keep]
+            if len(rest) < k - len(keep):
+                continue
+            e = keep + rng.sample(rest, k - len(keep))
+            rng.shuffle(e)
+            t = rng.randint(0, tmax)
+            if (t, tuple(sorted(e))) not in rs:
+                return e, t
+        return None, None
+    n_steps = rng.randint(5, 11)
+    bad_at = set(rng.sample(range(2, n_steps), min(n_steps - 2, rng.randint(2, 4))))
+    for i in range(n_steps):
+        r = 0.9 if i in bad_at else 0.77 * rng.random()
+        rs = recs()
+        if r < 0.5 or not rs:
+            e, t = new_rec()
+            if e is None:
+                continue
+            o = pick_md(rng)
+            if weighted:
+                o["w"] = rng.choice([1, 2, 0.5])
+            live.do(["add", e, t, o])
+        elif r < 0.58:
+            t, e = rng.choice(rs)
+            live.do(["rm" if rng.random() < 0.6 else "rm_rec", list(e), t])
+        elif r < 0.64:
+            t, e = rng.choice(rs)
+            live.do(["set_md", list(e), t, {"md": rng.choice(MAPPINGS + NON_MAPPING)}])
+        elif r < 0.70:
+            live.do([rng.choice(["copy", "deepcopy", "pickle"])])
+        elif r < 0.77:
+            live.do(["saveload", {"fmt": rng.choice(["json", "hgx"])}])
+        else:
+            # calls that the unchanged code refuses
+            e, t = new_rec()
+            c = rng.randrange(8)
+            if e is None:
+                continue
+            if c == 0:
+                live.do(["add", e, rng.choice([1.5, "3", None]), pick_md(rng)])
+            elif c == 1:
+                live.do(["add", e, -1 - t, pick_md(rng)])
+            elif c == 2 and not weighted:
+                live.do(["add", e, t, {"w": rng.choice([2, 0.5]), **pick_md(rng)}])
+            elif c == 3:
+                live.do(["add", e[:-1] + ["zz" if ints else 10 ** 6], t, pick_md(rng)])
+            elif c == 4:
+                live.do(["rm", e, t])
+            elif c == 5 and rs:
+                t2, e2 = rng.choice(rs)
+                live.do(["rms", [[list(e2), t2], [e, t]]])
+            elif c == 6:
+                live.do(["adds", [e, list(rs[0][1]) if rs else e[:2]], [t]])
+            else:
+                live.do(["set_md", e, t, {"md": {}}])
+        if rng.random() < 0.1:
+            live.do(["ask"])
+    r = rng.random()
+    if r < 0.45:
+        pick = ["aggregate", rng.randint(1, 3), rng.randint(0, 5)]
+    elif r < 0.9:
+        tw = None if rng.random() < 0.4 else [rng.randint(0, 2), rng.randint(2, tmax + 2)]
+        pick = ["snapshot", tw, rng.random() < 0.5, rng.randint(0, 5)]
+    else:
+        pick = None
+    src = {"t": "temporal", "weighted": weighted, "tsteps": live.steps, "pick": pick}
+    obj = None
+    if pick and live.obj is not None:
+        d = guard(live.obj.aggregate, pick[1]) if pick[0] == "aggregate" else \
+            guard(live.obj.subhypergraph, tuple(pick[1]) if pick[1] is not None else None, bool(pick[2]))
+        if d[0] == "ok" and isinstance(d[1], dict) and d[1]:
+            objs = list(d[1].values())
+            obj = objs[pick[-1] % len(objs)]
+        else:
+            src["pick"] = None
+    return src, obj, labels, weighted
+
+
+def gen_session(rng):
+    import tempfile
+    import shutil
+    import warnings
+    tmp = tempfile.mkdtemp(prefix="c20g")
+    try:
+        with warnings.catch_warnings():
+            warnings.simplefilter("ignore")
+            return gen_session_(rng, tmp)
+    except Exception:  # noqa: BLE001  (a changed implementation may hand the generator objects it cannot read)
+        return SESSION_FIXED[rng.randrange(len(SESSION_FIXED))]
+    finally:
+        shutil.rmtree(tmp, ignore_errors=True)
+
+
+def gen_session_(rng, tmp):
+    r = rng.random()
+    flavour = "api" if r < 0.27 else "hif" if r < 0.44 else "gen" if r < 0.56 else "temporal" if r < 0.82 else "uniform"
+    seed = rng.randint(0, 10 ** 6)
+    weighted, uniform = False, None
+    if flavour == "temporal":
+        src, obj, labels, weighted = gen_temporal_source(rng, tmp)
+        if obj is None:
+            return {"kind": "session", "src": src, "steps": [], "seed": seed}
+    else:
+        ints = rng.random() < 0.55
+        labels = rng.sample(SESSION_INT if ints else SESSION_STR, rng.randint(4, 8))
+        if flavour == "api":
+            weighted = rng.random() < 0.25
+            if rng.random() < 0.5:
+                src = {"t": "new", "weighted": weighted}
+            else:
+                es = [list(e) for e in dict.fromkeys(tuple(sorted(e)) for e in gen_edges(rng, labels, 1, 5))]
+                src = {"t": "ctor", "edges": es, "weighted": weighted}
+                if weighted:
+                    src["weights"] = [rng.choice([1, 2, 0.5]) for _ in es]
+                if rng.random() < 0.5:
+                    src["edge_md"] = [rng.choice(MAPPINGS + NON_MAPPING) for _ in es]
+                if rng.random() < 0.4:
+                    src["node_md"] = [[x, rng.choice(MAPPINGS + NON_MAPPING[:3])] for x in rng.sample(labels, 2)]
+        elif flavour == "hif":
+            uniform = rng.choice([3, 4]) if rng.random() < 0.2 else None
+            src = {"t": "hif", "doc": gen_hif_doc(rng, uniform)}
+            labels = list(range(12))
+        elif flavour == "gen":
+            c = rng.randrange(5)
+            n = rng.randint(5, 9)
+            labels = list(range(n))
+            if c == 0:
+                src = {"t": "gen", "fn": "random_hypergraph", "args": {"n": n, "by_size": [[k, rng.randint(1, 4)] for k in rng.sample([2, 3, 4], rng.randint(1, 3))], "seed": seed}}
+            elif c in (1, 2):
+                k = rng.choice([3, 4])
+                src = {"t": "gen", "fn": "random_uniform_hypergraph", "args": {"n": n, "size": k, "m": rng.randint(n - 1, n + 4), "seed": seed}}
+            elif c == 3:
+                ks = rng.sample([2, 3, 4], rng.randint(1, 2))
+                src = {"t": "gen", "fn": "scale_free_hypergraph", "args": {"n": n, "by_size": [[k, rng.randint(2, 4)] for k in ks],
+                                                                            "scale": [[k, rng.choice([0.5, 1.0, 2.0])] for k in ks],
+                                                                            "correlated": rng.random() < 0.7, "seed": seed}}
+            else:
+                wm = rng.random() < 0.4
+                es = [list(e) for e in dict.fromkeys(tuple(sorted(e)) for e in gen_edges(rng, list(range(1, n + 1)), 2, 6))]
+                text = "%% hmetis\n%d %d%s\n" % (len(es), n, " 1" if wm else "") + "".join(
+                    (("%d " % rng.randint(1, 5)) if wm else "") + " ".join(str(x) for x in e) + "\n" for e in es)
+                src = {"t": "gen", "fn": "hgr", "args": {"text": text}}
+                labels = list(range(1, n + 1))
+                weighted = wm
+        else:
+            k = rng.choice([3, 4])
+            n = rng.randint(k + 1, 9)
+            labels = list(range(n))
+            uniform = k
+            es = gen_uniform_edges(rng, n, k)
+            src = {"t": "ctor", "edges": es, "weighted": False}
+            if rng.random() < 0.5:
+                src["edge_md"] = [rng.choice(MAPPINGS + NON_MAPPING) for _ in es]
+        g = guard(source_static, src, tmp)
+        obj = g[1] if g[0] == "ok" else None
+        if obj is None:
+            return {"kind": "session", "src": src, "steps": [], "seed": seed}
+    live = Live(rng, obj, labels, step_static, tmp)
+    if src["t"] != "new" and rng.random() < 0.5:
+        live.do(["ask"])
+    grow_static(rng, live, rng.randint(2, 9), weighted, uniform)
+    if rng.random() < 0.6:
+        # every way of deriving another object from this one, a few per session
+        kinds = ["copy", "pickle", "saveload", "saveload"] if uniform is not None else \
+            ["copy", "deepcopy", "pickle", "sub", "by_orders", "lcc", "edges_sub", "saveload", "saveload", "filter", "add_random", "shuffle", "config"]
+        for k in rng.sample(kinds, min(len(kinds), rng.randint(3, 5))):
+            st = derive_static(rng, live, uniform, kind=k)
+            if st[0] == "filter":
+                # (works in place)
+                live.do(["probe", ["copy"]])
+            else:
+                live.do(["probe", st])
+    return {"kind": "session", "src": src, "steps": live.steps, "seed": seed}
+
+
+SESSION_FIXED = [
+    # a hyperedge added with a non-mapping metadata object (a tag), then a call that raises, copies
+    {"kind": "session", "src": {"t": "ctor", "edges": [[0, 1, 2], [2, 3, 4], [4, 5, 6]], "weighted": False}, "seed": 1,
+     "steps": [["add_edge", [0, 6, 7], {"md": "contact"}], ["ask"], ["add_edge", [1, 3], {"md": 7}], ["rm_edge", [8, 9]], ["copy"],
+               ["add_edges", [[1, 5], [2, 6, 7]], {"md": [["a", "b"], ""]}]]},
+    # an edge record without incidences, an unrecorded node, an isolated node record
+    {"kind": "session", "src": {"t": "hif", "doc": {"type": "undirected", "nodes": [{"node": n} for n in "abcdefg"],
+                                                      "edges": [{"edge": e} for e in ["e1", "e2", "e3", "e4", "e5"]],
+                                                      "incidences": [{"edge": e, "node": n} for e, ns in
+                                                                     (("e1", "abc"), ("e2", "bcd"), ("e3", "de"), ("e4", "efa")) for n in ns]}},
+     "seed": 2, "steps": [["ask"], ["add_empty", "ph", {"md": {"note": "no members yet"}}], ["pickle"]]},
+    # a 3-uniform connected hypergraph on 0..5 that carries an empty edge and tags: CEC / HEC apply
+    {"kind": "session", "src": {"t": "ctor", "edges": [[0, 1, 2], [1, 2, 3], [3, 4, 5], [0, 4, 5]], "weighted": False, "edge_md": ["t", 1, {}, []]},
+     "seed": 3, "steps": [["add_empty", 0, {"md": "x"}], ["add_edge", [2, 3, 5], {"md": "tag"}], ["set_weight", [0, 1, 2], {"w": 2}]]},
+    # windows of a temporal hypergraph whose records carry tags
+    {"kind": "session", "src": {"t": "temporal", "weighted": False, "pick": ["aggregate", 2, 0],
+                                "tsteps": [["add", [1, 2, 3], 0, {"md": "tag"}], ["add", [2, 4], 1, {"md": 5}], ["add", [1, 4], 2, {}],
+                                           ["add", [3, 4, 5], 1.5, {}], ["add", [2, 3], 3, {"md": ["x"]}], ["saveload", {"fmt": "hgx"}]]},
+     "seed": 4, "steps": [["add_edge", [1, 2], {"md": "late"}]]},
+]
+
+
+# ------------------------------------------------------------------------------------------
 
 def check_case(ctx, drv, case):
     """a result of an unexpected shape (a changed implementation) must not stop the run: it is reported, the run goes on"""
@@ -1831,6 +2824,8 @@ def check_case_(ctx, drv, case):
         check_temporal(ctx, drv, case)
     elif kind == "dense":
         check_dense(ctx, drv, case)
+    elif kind == "session":
+        check_session(ctx, drv, case)
     else:
         check_uniform(ctx, drv, case)
 
@@ -1858,30 +2853,43 @@ FIXED = [
 def run(ctx):
     drv = ctx.driver() if ctx.model_available else None
     ill_conditioned_witness(ctx)
-    for case in FIXED:
+    for case in FIXED + (SESSION_FIXED if not os.environ.get("C20_NO_ZOO") else []):
         check_case(ctx, drv, case)
-    n = ctx.scale(250, 12000)
+    n = ctx.scale(300, 12000)
     cap = ctx.scale(450, 1500)
+    spent = {}
     for i in range(n):
-        r = i % 10
+        r = i % 12
         if r in (0, 1, 2):
             case = gen_static(ctx.rng)
         elif r in (3, 4, 5):
             case = gen_temporal(ctx.rng)
         elif r in (6, 7):
             case = gen_uniform(ctx.rng)
-        else:
+        elif r in (8, 9):
             case = gen_dense(ctx.rng, cap)
+        else:
+            t0 = time.time()
+            case = gen_session(ctx.rng)
+            spent["session_generation"] = spent.get("session_generation", 0.0) + time.time() - t0
+        t0 = time.time()
         check_case(ctx, drv, case)
+        spent[case.get("kind")] = spent.get(case.get("kind"), 0.0) + time.time() - t0
         if ctx.too_many() or (ctx.time_left() is not None and ctx.time_left() < 8):
             ctx.count("stopped_by_budget")
             break
+    for k, v in spent.items():
+        ctx.count(f"seconds_{k}", round(v, 1))
 
 
 def _tuplify(case):
     case = dict(case)
     if "edges" in case:
         case["edges"] = [tuple(e) for e in case["edges"]]
+    if case.get("kind") == "session":
+        for k in ("instance", "s", "start", "line", "n", "k"):
+            case.pop(k, None)
+        return case
     for k in ("instance", "s", "start", "line", "relabelled"):
         case.pop(k, None)
     return case
